@@ -177,7 +177,7 @@ def checkCommit (x : OIn) (i : Nat) (c : ICommit) : List String :=
         let nrm (l : List Bytes) := if x.byOid then l.map normIdent else l
         let hdrErr := if nrm d.headers != nrm (c.headers.map (rewriteIdentityLine x.o)) then
             ["C04: author/committer/encoding lines of " ++ tag ++ " are not the documented rewriting of the originals"] else []
-        let msgErr := if (x.o.shortHash.isNone || x.prior.isSome) && x.o.msgRegex.isNone &&
+        let msgErr := if (x.o.shortHash.isNone || x.prior.isSome) &&
             d.msg != rewriteMessage { x.o with shortHash := translatorAt x c.origOid } c.msg then
             ["C04: message of " ++ tag ++ " is not the documented rewriting of the original"] else []
         treeErr ++ parErr ++ rootErr ++ hdrErr ++ msgErr
@@ -211,7 +211,7 @@ def checkRefs (x : OIn) : List String :=
        | some a, some b =>
          (if (a.target.bind (imgP x)) != b.target then ["C03: annotated tag " ++ showBytes n ++ " does not point at the image of its target"] else []) ++
          (if a.headers != b.headers then ["C03: annotated tag " ++ showBytes n ++ " lost or changed its tagger"] else []) ++
-         (if (x.o.shortHash.isNone || x.prior.isSome) && x.o.msgRegex.isNone &&
+         (if (x.o.shortHash.isNone || x.prior.isSome) &&
              b.msg != rewriteMessage { x.o with shortHash := translatorAt x none } a.msg then ["C04: message of annotated tag " ++ showBytes n ++ " is not the documented rewriting"] else [])
        | _, _ => ["C03: tag object missing for " ++ showBytes n])
     | .tag _, some (some (.commit _)) => ["C03: annotated tag " ++ showBytes n ++ " is no longer a tag object"]
